@@ -117,7 +117,8 @@ enum HOp {
 
 fn hmat_real(f: &Fill, ni: usize, nt: usize, ops: &[HOp]) -> Result<(Vec<u8>, Vec<u8>), String> {
     catch(|| {
-        let mut s = real_sll_new(f, sll_shape(ni, nt, 0));
+        let f = &f.with(crate::fill::SZ, ni as u64).with(crate::fill::SX, nt as u64);
+        let mut s = real_sll_new(f, sll_shape(0, 0, 0));
         for o in ops {
             match o {
                 HOp::Cell(i, j, v) => s.set_entry_value(*i as usize, *j as usize, *v),
@@ -150,7 +151,8 @@ fn hmat_model(f: &Fill, ni: usize, nt: usize, ops: &[HOp]) -> Vec<u8> {
         }
     }
     let mut w = W::new();
-    ref_sll_with(&mut w, f, sll_shape(ni, nt, opts), &inits, &tgts, &cells);
+    let f = &f.with(crate::fill::SZ, ni as u64).with(crate::fill::SX, nt as u64);
+    ref_sll_with(&mut w, f, sll_shape(0, 0, opts), &inits, &tgts, &cells);
     w.0
 }
 
@@ -284,10 +286,108 @@ pub fn run(ctx: &'static Ctx) {
         }
     }
     ctx.engine("E1.hmat-closures", json!(hm));
+
+    // ---- shape sweeps (E3): every shape of a grid, one program each: every cell assigned a distinct value in
+    // row-major, column-major or reverse order, then three cells overwritten; the whole matrix is compared after the
+    // fill and after the overwrites. Sizes and cell counts cross 256, 512 and 1024.
+    {
+        use rayon::prelude::*;
+        let g: usize = if quick { 34 } else { 64 };
+        let shapes: Vec<(usize, usize)> = (1..=g).flat_map(|i| (1..=g).map(move |t| (i, t))).filter(|(i, t)| !quick || *i <= 6 || *t <= 6 || (i * t) % 3 == 2 || (250..=290).contains(&(i * t)) || (500..=530).contains(&(i * t)) || (1010..=1040).contains(&(i * t))).collect();
+        let n = AtomicU64::new(0);
+        shapes.par_iter().for_each(|(ni, nt)| {
+            let (ni, nt) = (*ni, *nt);
+            let f = Fill::b(2);
+            for order in 0..3 {
+                let mut cells: Vec<(usize, usize)> = (0..ni).flat_map(|i| (0..nt).map(move |j| (i, j))).collect();
+                match order {
+                    1 => cells.sort_by_key(|(i, j)| (*j, *i)),
+                    2 => cells.reverse(),
+                    _ => {}
+                }
+                if order > 0 && ni * nt > 300 && (ni + nt) % 4 != 0 {
+                    continue;
+                }
+                let mut ops: Vec<HOp> = cells.iter().map(|(i, j)| HOp::Cell(*i as u8, *j as u8, ((i * nt + j) as u16).wrapping_mul(0x0101).wrapping_add(1))).collect();
+                for cut in [ops.len(), usize::MAX] {
+                    if cut == usize::MAX {
+                        ops.push(HOp::Cell(0, 0, 0xabcd));
+                        ops.push(HOp::Cell((ni - 1) as u8, (nt - 1) as u8, 0));
+                        ops.push(HOp::Cell((ni / 2) as u8, (nt / 2) as u8, 0xffff));
+                        ops.push(HOp::Init((ni - 1) as u8, 0x0403_0201));
+                        ops.push(HOp::Tgt((nt - 1) as u8, 0x0807_0605));
+                    }
+                    n.fetch_add(1, std::sync::atomic::Ordering::Relaxed);
+                    ctx.tr(ops.len() as u64);
+                    let want = hmat_model(&f, ni, nt, &ops);
+                    match hmat_real(&f, ni, nt, &ops) {
+                        Ok((img, table)) => {
+                            ctx.distinct(crate::util::fnv(&img));
+                            if img != want {
+                                let d = crate::util::first_diff(&img, &want).unwrap_or(0);
+                                ctx.violation_sized(
+                                    "hmat:cell:large-shape",
+                                    (ni * nt) as u64,
+                                    || format!("HMAT locality {}x{} with every cell assigned (order {}): structure differs from the last-writer reference at byte {} ({} vs {} bytes)", ni, nt, order, d, img.len(), want.len()),
+                                    || json!({"family":"hmat-sll-sweep","initiators":ni,"targets":nt,"order":order}),
+                                );
+                            }
+                            if sum8(&table) != 0 || table.len() != 40 + img.len() {
+                                ctx.violation_sized("hmat:table:large-shape", (ni * nt) as u64, || format!("HMAT holding a {}x{} structure: sum {} len {} (structure {})", ni, nt, sum8(&table), table.len(), img.len()), || json!({"family":"hmat-sll-sweep","initiators":ni,"targets":nt,"order":order}));
+                            }
+                        }
+                        Err(m) => {
+                            ctx.violation_sized("hmat:refused:large-shape", (ni * nt) as u64, || format!("HMAT locality {}x{} refused an in-range assignment: {}", ni, nt, m), || json!({"family":"hmat-sll-sweep","initiators":ni,"targets":nt,"order":order}));
+                        }
+                    }
+                }
+            }
+        });
+        ctx.st(n.load(std::sync::atomic::Ordering::Relaxed));
+        ctx.engine("E3.hmat-shape-sweep", json!({"grid": g, "shapes": shapes.len(), "programs": n.load(std::sync::atomic::Ordering::Relaxed), "orders": ["row-major", "column-major", "reverse"]}));
+        // SLIT: every L up to the grid size: all cells of the upper triangle assigned distinct values (both argument orders), then compared
+        let lmax: u32 = if quick { 40 } else { 100 };
+        let m = AtomicU64::new(0);
+        (1..=lmax).into_par_iter().for_each(|l| {
+            for order in 0..2 {
+                let mut ops: Vec<SlitOp> = vec![];
+                for a in 0..l {
+                    for b in a..l {
+                        let v = (11 + (a * 7 + b * 3) % 240) as u8;
+                        ops.push(if order == 0 { (a as u8, b as u8, v) } else { (b as u8, a as u8, v) });
+                    }
+                }
+                if order == 1 {
+                    ops.reverse();
+                    ops.push((0, 0, 10));
+                    ops.push(((l - 1) as u8, 0, 0xfe));
+                }
+                m.fetch_add(1, std::sync::atomic::Ordering::Relaxed);
+                ctx.tr(ops.len() as u64);
+                let want = slit_model(l as usize, &ops);
+                match slit_real(l, &ops) {
+                    Ok(img) => {
+                        ctx.distinct(crate::util::fnv(&img));
+                        if img.len() != 44 + want.len() || img[44..] != want[..] {
+                            ctx.violation_sized("slit:cell:large", l as u64, || format!("SLIT L={} with every pair assigned (order {}): matrix differs from the last-writer reference at {:?}", l, order, crate::util::first_diff(&img[44.min(img.len())..], &want)), || json!({"family":"slit-sweep","L":l,"order":order}));
+                        }
+                        if sum8(&img) != 0 {
+                            ctx.violation_sized("slit:sum:large", l as u64, || format!("SLIT L={} with every pair assigned: image sums to {}", l, sum8(&img)), || json!({"family":"slit-sweep","L":l,"order":order}));
+                        }
+                    }
+                    Err(msg) => {
+                        ctx.violation_sized("slit:refused:large", l as u64, || format!("SLIT L={} refused an in-range assignment: {}", l, msg), || json!({"family":"slit-sweep","L":l,"order":order}));
+                    }
+                }
+            }
+        });
+        ctx.st(m.load(std::sync::atomic::Ordering::Relaxed));
+        ctx.engine("E3.slit-size-sweep", json!({"L": format!("1..={}", lmax), "programs": m.load(std::sync::atomic::Ordering::Relaxed)}));
+    }
     ctx.force_sample(json!({"slit": {"L": 3, "ops": [[1, 1, 20], [0, 2, 255], [2, 0, 10]]}, "expected_matrix": "0a 0a 0a / 0a 14 0a / 0a 0a 0a"}));
     ctx.force_sample(json!({"hmat": {"shape": [3, 2], "ops": ["Cell(2,1,0x1234)", "Cell(1,0,0)"]}, "expected_cells": "ffff ffff 0000 ffff ffff 1234"}));
     ctx.set("bound", json!("closures (no depth bound) for the listed shapes and value sets; every transition judged"));
 }
 
-pub const RULE: &str = "stateright closure per shape: SLIT L=1..3 (4 and 5 thorough) over every ordered pair incl. diagonal x {10,20,255}; HMAT shapes incl. 1xn, nx1, non-square, over every cell x {0,0x1234,0xFFFF}, list setters and option setters. Every transition is executed on the real object and compared with a last-writer reference map; the structure is also added to an HMAT whose checksum is checked. distinct = unique canonical states";
+pub const RULE: &str = "stateright closure per shape: SLIT L=1..3 (4 and 5 thorough) over every ordered pair incl. diagonal x {10,20,255}; HMAT shapes incl. 1xn, nx1, non-square, over every cell x {0,0x1234,0xFFFF}, list setters and option setters; plus shape sweeps: every HMAT shape of a grid (quick 34x34 subset, thorough 64x64) and every SLIT size up to 40 (100) with every cell assigned and some overwritten. Every transition is executed on the real object and compared with a last-writer reference map; the structure is also added to an HMAT whose checksum is checked. distinct = unique canonical states";
 pub const ASSUME: &[&str] = &["larger shapes and other values are not enumerated", "behaviour for out-of-range indices is not judged (the property speaks of in-range pairs)"];
